@@ -753,3 +753,290 @@ Proof.
     destruct C as [_ [[C|C] C3]]; [discriminate|]. split; [rewrite Hp; exact C|].
     intros n Hn. rewrite E in Hn. simpl in Hn. destruct (C3 n Hn) as [-> C4]. split; [reflexivity|]. rewrite Hp, <- P. exact C4.
 Qed.
+
+(* ------------------------------------------------------------------ order inside one operation *)
+Lemma ordered_segments early late a b :
+  existsb late a = false -> existsb early b = false -> ordered early late (a ++ b) = true.
+Proof.
+  intros Ha Hb. rewrite ordered_app, (ordered_no_late _ _ _ Ha), (ordered_no_early _ _ _ Hb), Ha. reflexivity.
+Qed.
+
+Definition startup_cb (i : nat) (e : event) : bool := is_cb KStartup i e || is_cb KFirst i e.
+
+Lemma startup_cb_cb_events i k j ns :
+  k <> KStartup -> k <> KFirst -> existsb (startup_cb i) (cb_events k j ns) = false.
+Proof.
+  intros H1 H2. apply existsb_false_iff. intros e He. apply in_cb_events in He as [n [-> _]].
+  unfold startup_cb, is_cb. destruct k; try contradiction; reflexivity.
+Qed.
+
+Lemma accept_cb_events i k j ns : existsb (is_accept i) (cb_events k j ns) = false.
+Proof. apply existsb_false_iff. intros e He. apply in_cb_events in He as [n [-> _]]. reflexivity. Qed.
+
+Lemma startup_cb_listen i i' oi l : forallb (is_listen_ev i' oi) l = true -> existsb (startup_cb i) l = false.
+Proof.
+  intro H. apply existsb_false_iff. intros e He. apply (forallb_In _ _ _ H) in He. destruct e; try discriminate; reflexivity.
+Qed.
+Lemma startup_cb_tail i i' l : forallb (is_tail_ev i') l = true -> existsb (startup_cb i) l = false.
+Proof.
+  intro H. apply existsb_false_iff. intros e He. apply (forallb_In _ _ _ H) in He. destruct e; try discriminate; reflexivity.
+Qed.
+Lemma startup_cb_stop i i' l : forallb (is_stop_ev i') l = true -> existsb (startup_cb i) l = false.
+Proof.
+  intro H. apply existsb_false_iff. intros e He. apply (forallb_In _ _ _ H) in He. destruct e; try discriminate; reflexivity.
+Qed.
+
+(* inside the events of startWithListenerFds: callbacks first, listeners and serving after *)
+Lemma plan_split c i restart old oi ev ok saved :
+  plan_shape c i restart old oi ev ok saved ->
+  exists a b, ev = a ++ b /\ (forall j, existsb (is_accept j) a = false) /\ (forall j, existsb (startup_cb j) b = false).
+Proof.
+  intros [hd f su li tl Heq Hhd _ _ _ _ _ Hli Htl _ _]. subst ev.
+  exists (hd ++ cb_events KFirst i f ++ cb_events KStartup i su), (li ++ tl).
+  split; [rewrite <- !app_assoc; reflexivity|]. split; intro j.
+  - rewrite !existsb_app, !accept_cb_events. destruct Hhd as [->|[->| ->]]; reflexivity.
+  - rewrite existsb_app, (startup_cb_listen _ _ _ _ Hli), (startup_cb_tail _ _ _ Htl). reflexivity.
+Qed.
+
+Lemma startup_before_accept s o s' ev r i :
+  step s o = (s', ev, r) -> ordered (startup_cb i) (is_accept i) ev = true.
+Proof.
+  intro H.
+  assert (Triv : (forall j l, In (ECb KStartup j l) ev -> False) -> (forall j l, In (ECb KFirst j l) ev -> False) ->
+                 ordered (startup_cb i) (is_accept i) ev = true).
+  { intros H1 H2. apply ordered_no_early. apply existsb_false_iff. intros e He.
+    unfold startup_cb. destruct (is_cb KStartup i e) eqn:E1.
+    - apply is_cb_true in E1 as [n ->]. exfalso. eauto.
+    - destruct (is_cb KFirst i e) eqn:E2; [|reflexivity]. apply is_cb_true in E2 as [n ->]. exfalso. eauto. }
+  destruct o as [c|h c|h| |h| |h];
+    try (apply Triv; intros j l Hin; pose proof (step_cb_kinds _ _ _ _ _ _ _ _ H Hin) as K; simpl in K;
+         try contradiction; try (destruct K as [_ [D|D]]; discriminate); try (destruct K as [[D|D] _]; discriminate); fail).
+  - simpl in H. unfold do_start in H. destruct (start_plan c (next s) false [] 0) as [[e ok] saved] eqn:E.
+    pose proof (start_plan_shape _ _ _ _ _ _ _ _ E) as Sh.
+    destruct (plan_split _ _ _ _ _ _ _ _ Sh) as [a [b [-> [Ha Hb]]]].
+    destruct ok; injection H as <- <- <-.
+    + rewrite <- app_assoc. apply ordered_segments; [apply Ha|]. rewrite existsb_app, Hb. reflexivity.
+    + apply ordered_segments; auto.
+  - simpl in H. unfold do_restart in H. destruct (find_inst h (known s)) as [o|] eqn:F.
+    2:{ injection H as <- <- <-. reflexivity. }
+    destruct (restart_body o c (set_wg s (wg_add (i_root o) 1 (wg s)))) as [[s1 e1] r1] eqn:E.
+    injection H as <- <- <-.
+    apply restart_body_cases in E. cbv zeta in E. simpl in E.
+    destruct E as [[_ [_ [_ ->]]] | [_ [e2 [ok2 [saved [P E]]]]]].
+    + apply ordered_no_early. rewrite existsb_app, !startup_cb_cb_events by discriminate. reflexivity.
+    + pose proof (start_plan_shape _ _ _ _ _ _ _ _ P) as Sh.
+      destruct (plan_split _ _ _ _ _ _ _ _ Sh) as [a [b [-> [Ha Hb]]]].
+      destruct E as [[_ [_ [_ ->]]] | [_ [e3 [S3 E]]]].
+      * replace (cb_events KRestart (i_id o) (labels (c_restart (i_cfg o))) ++ (a ++ b) ++
+                 cb_events KRestartFailed (i_id o) (labels (c_rfailed (i_cfg o))))
+          with ((cb_events KRestart (i_id o) (labels (c_restart (i_cfg o))) ++ a) ++
+                (b ++ cb_events KRestartFailed (i_id o) (labels (c_rfailed (i_cfg o)))))
+          by (rewrite <- !app_assoc; reflexivity).
+        apply ordered_segments.
+        -- rewrite existsb_app, accept_cb_events, Ha. reflexivity.
+        -- rewrite existsb_app, Hb, startup_cb_cb_events by discriminate. reflexivity.
+      * pose proof (stop_inst_events _ _ _ _ S3) as Hst.
+        destruct E as [[_ [_ ->]] | [_ [_ ->]]].
+        -- replace (cb_events KRestart (i_id o) (labels (c_restart (i_cfg o))) ++ (a ++ b) ++ e3 ++
+                    cb_events KShutdown (i_id o) (upto_fail (c_shutdown (i_cfg o))) ++
+                    cb_events KRestartFailed (i_id o) (labels (c_rfailed (i_cfg o))))
+             with ((cb_events KRestart (i_id o) (labels (c_restart (i_cfg o))) ++ a) ++
+                   (b ++ e3 ++ cb_events KShutdown (i_id o) (upto_fail (c_shutdown (i_cfg o))) ++
+                    cb_events KRestartFailed (i_id o) (labels (c_rfailed (i_cfg o)))))
+             by (rewrite <- !app_assoc; reflexivity).
+           apply ordered_segments.
+           ++ rewrite existsb_app, accept_cb_events, Ha. reflexivity.
+           ++ rewrite !existsb_app, Hb, (startup_cb_stop _ _ _ Hst), !startup_cb_cb_events by discriminate. reflexivity.
+        -- replace (cb_events KRestart (i_id o) (labels (c_restart (i_cfg o))) ++ (a ++ b) ++ e3 ++
+                    cb_events KShutdown (i_id o) (labels (c_shutdown (i_cfg o))) ++
+                    [EHook HInstanceStartup (next s)])
+             with ((cb_events KRestart (i_id o) (labels (c_restart (i_cfg o))) ++ a) ++
+                   (b ++ e3 ++ cb_events KShutdown (i_id o) (labels (c_shutdown (i_cfg o))) ++
+                    [EHook HInstanceStartup (next s)]))
+             by (rewrite <- !app_assoc; reflexivity).
+           apply ordered_segments.
+           ++ rewrite existsb_app, accept_cb_events, Ha. reflexivity.
+           ++ rewrite !existsb_app, Hb, (startup_cb_stop _ _ _ Hst), !startup_cb_cb_events by discriminate. reflexivity.
+Qed.
+
+(* ------------------------------------------------------------------ a successful reload, in full *)
+Lemma reload_ok_shape s h c s' ev n :
+  step s (ORestart h c) = (s', ev, RInst true n) ->
+  exists o li saved e3,
+    find_inst h (known s) = Some o /\ n = next s /\
+    listen_loop true (i_srv o) h n 0 (c_servers c) = (li, true, saved) /\
+    forallb (is_listen_ev n h) li = true /\ forallb (is_stop_ev h) e3 = true /\
+    ev = cb_events KRestart h (labels (c_restart (i_cfg o)))
+         ++ (ENew n :: EMake n :: cb_events KStartup n (labels (c_startup c)) ++ li ++ serve_events n saved)
+         ++ e3
+         ++ cb_events KShutdown h (labels (c_shutdown (i_cfg o)))
+         ++ [EHook HInstanceStartup n].
+Proof.
+  simpl. unfold do_restart. intro H. destruct (find_inst h (known s)) as [o|] eqn:F; [|discriminate].
+  pose proof (find_inst_id _ _ _ F) as Hid.
+  destruct (restart_body o c (set_wg s (wg_add (i_root o) 1 (wg s)))) as [[s1 e1] r1] eqn:E.
+  injection H as <- <- ->.
+  apply restart_body_cases in E. cbv zeta in E. simpl in E. rewrite Hid in E.
+  destruct E as [[_ [_ [D _]]] | [_ [e2 [ok2 [saved [P E]]]]]]; [discriminate|].
+  destruct E as [[_ [_ [D _]]] | [-> [e3 [S3 E]]]]; [discriminate|].
+  destruct E as [[_ [D _]] | [_ [D ->]]]; [discriminate|]. injection D as D. subst n.
+  pose proof (start_plan_shape _ _ _ _ _ _ _ _ P) as [hd f su li tl Heq _ _ _ _ _ _ Hli _ _ Hok].
+  destruct (Hok eq_refl) as [_ [-> [-> [-> [LL ->]]]]].
+  exists o, li, saved, e3. split; [reflexivity|]. split; [reflexivity|]. split; [exact LL|]. split; [exact Hli|].
+  split; [rewrite <- Hid; eapply stop_inst_events; eauto|].
+  rewrite Heq. simpl. rewrite app_nil_r. reflexivity.
+Qed.
+
+(* ------------------------------------------------------------------ a failed reload *)
+Lemma wg_done_add r w x : wg_done r (wg_add r 1 w) x = w x.
+Proof. unfold wg_done, wg_add. destruct (x =? r); lia. Qed.
+
+Definition is_file_ev (h : nat) (e : event) : bool := match e with EFile o _ _ => o =? h | _ => false end.
+
+(* what a failing startWithListenerFds of a reload may log: the new instance's set-up, its startup
+   callbacks, its listeners — and File() of the old instance's listeners; nothing is served *)
+Lemma plan_fail_events c i old oi ev saved e :
+  plan_shape c i true old oi ev false saved -> In e ev ->
+  e = ENew i \/ e = EMake i \/ (exists n, e = ECb KStartup i n) \/ is_listen_ev i oi e = true.
+Proof.
+  intros [hd f su li tl Heq Hhd _ _ Hfr _ _ Hli _ Hft _] Hin. subst ev.
+  rewrite (Hfr eq_refl), (Hft eq_refl) in Hin. simpl in Hin. rewrite app_nil_r in Hin.
+  repeat (apply in_app_or in Hin as [Hin|Hin]).
+  - destruct Hhd as [->|[->| ->]]; simpl in Hin; intuition.
+  - apply in_cb_events in Hin as [n [-> _]]. eauto.
+  - right. right. right. eapply forallb_In; eauto.
+Qed.
+
+Lemma reload_fail_partial s h c s' ev h' o :
+  step s (ORestart h c) = (s', ev, RInst false h') ->
+  find_inst h (known s) = Some o ->
+  existsb cb_fail (c_shutdown (i_cfg o)) = false ->
+  h' = h /\
+  insts s' = insts s /\ known s' = known s /\ serving s' = serving s /\ once s' = once s /\
+  (forall x, wg s' x = wg s x) /\
+  exists e2,
+    (e2 = [] \/ exists saved, start_plan c (next s) true (i_srv o) h = (e2, false, saved)) /\
+    ev = cb_events KRestart h (upto_fail (c_restart (i_cfg o))) ++ e2
+         ++ cb_events KRestartFailed h (labels (c_rfailed (i_cfg o))).
+Proof.
+  simpl. unfold do_restart. intros H F Hsh. rewrite F in H.
+  pose proof (find_inst_id _ _ _ F) as Hid.
+  destruct (restart_body o c (set_wg s (wg_add (i_root o) 1 (wg s)))) as [[s1 e1] r1] eqn:E.
+  injection H as <- <- ->.
+  apply restart_body_cases in E. cbv zeta in E. simpl in E. rewrite Hid in E.
+  destruct E as [[_ [-> [D ->]]] | [Hr [e2 [ok2 [saved [P E]]]]]].
+  - injection D as <-. simpl. repeat split; auto; try apply wg_done_add.
+    exists []. split; [auto|]. reflexivity.
+  - destruct E as [[-> [-> [D ->]]] | [_ [e3 [S3 E]]]].
+    + injection D as <-. simpl. repeat split; auto; try apply wg_done_add.
+      exists e2. split; [eauto|]. rewrite (upto_fail_all _ Hr). reflexivity.
+    + destruct E as [[D _] | [_ [D _]]]; [congruence|discriminate].
+Qed.
+
+Definition quirk_old : config :=
+  mkCfg false false false [] [mkCb 0 false] [mkCb 0 false] [mkCb 0 false]
+        [mkCb 0 true; mkCb 1 false] [mkCb 0 false] [mkSrv 0 true 1 false].
+Definition quirk_new : config :=
+  mkCfg false false false [] [mkCb 0 false] [] [] [mkCb 0 false] [] [mkSrv 0 true 1 false].
+
+(* ... but when an OnShutdown callback of the old instance fails, Restart reports failure and runs
+   the restart-failed callbacks although the old servers are stopped, part of the old shutdown
+   callbacks have run, and the new instance is the one that is live and serving *)
+Lemma reload_fail_refuted :
+  let res := step (final init [OStart quirk_old]) (ORestart 0 quirk_new) in
+  snd res = RInst false 0 /\
+  In (EStop 0 0) (snd (fst res)) /\ In (ECb KShutdown 0 0) (snd (fst res)) /\
+  ~ In (ECb KShutdown 0 1) (snd (fst res)) /\ In (ECb KRestartFailed 0 0) (snd (fst res)) /\
+  In (EServe 1 0) (snd (fst res)) /\
+  map i_id (insts (fst (fst res))) = [1].
+Proof.
+  cbv zeta. vm_compute. repeat split; auto 20.
+  intro H. repeat (destruct H as [H|H]; [discriminate|]). exact H.
+Qed.
+
+(* ------------------------------------------------------------------ the once guard *)
+Definition is_exec (o : op) : bool := match o with OExecShutdown => true | _ => false end.
+
+Lemma commit_once ni nx s : once (commit ni nx s) = once s.
+Proof. unfold commit. destruct (spawn (i_id ni) (i_root ni) (i_srv ni) (wg s) (serving s)). reflexivity. Qed.
+
+Lemma stop_all_keeps l : forall s s' ev, stop_all l s = (s', ev) ->
+  next s' = next s /\ known s' = known s /\ once s' = once s.
+Proof.
+  induction l as [|o l IH]; intros s s' ev E; simpl in E.
+  - injection E as <- <-. auto.
+  - destruct (stop_inst o (set_wg s (wg_add (i_root o) 1 (wg s)))) as [sa ea] eqn:E1.
+    destruct (stop_all l sa) as [sb eb] eqn:E2. injection E as <- <-. simpl.
+    destruct (IH _ _ _ E2) as [-> [-> ->]]. destruct (stop_inst_next _ _ _ _ E1) as [-> [-> ->]]. auto.
+Qed.
+
+Lemma step_once s o s' ev r : step s o = (s', ev, r) -> once s' = once s || is_exec o.
+Proof.
+  destruct o as [c|h c|h| |h| |h]; simpl; intro H; rewrite ?orb_false_r.
+  - unfold do_start in H. destruct (start_plan c (next s) false [] 0) as [[e ok] saved].
+    destruct ok; injection H as <- <- <-; [apply commit_once|reflexivity].
+  - unfold do_restart in H. destruct (find_inst h (known s)) as [o|]; [|injection H as <- <- <-; reflexivity].
+    destruct (restart_body o c (set_wg s (wg_add (i_root o) 1 (wg s)))) as [[s1 e1] r1] eqn:E.
+    injection H as <- <- <-. simpl.
+    apply restart_body_cases in E. cbv zeta in E. simpl in E.
+    destruct E as [[_ [-> _]] | [_ [e2 [ok2 [saved [P [[_ [-> _]] | [_ [e3 [S3 _]]]]]]]]]]; try reflexivity.
+    destruct (stop_inst_next _ _ _ _ S3) as [_ [_ ->]]. rewrite commit_once. reflexivity.
+  - destruct (find_inst h (known s)) as [x|]; [|injection H as <- <- <-; reflexivity].
+    destruct (stop_inst x s) as [s2 e2] eqn:E. injection H as <- <- <-.
+    destruct (stop_inst_next _ _ _ _ E) as [_ [_ ->]]. reflexivity.
+  - destruct (stop_all (insts s) s) as [s2 e2] eqn:E. injection H as <- <- <-.
+    destruct (stop_all_keeps _ _ _ _ E) as [_ [_ ->]]. reflexivity.
+  - destruct (find_inst h (known s)); injection H as <- <- <-; reflexivity.
+  - destruct (once s) eqn:O; injection H as <- <- <-; simpl; [rewrite O|]; reflexivity.
+  - destruct (find_inst h (known s)); injection H as <- <- <-; reflexivity.
+Qed.
+
+Lemma run_app ops1 : forall s ops2, run s (ops1 ++ ops2) = run s ops1 ++ run (final s ops1) ops2.
+Proof.
+  induction ops1 as [|o l IH]; intros s ops2; simpl; [reflexivity|].
+  destruct (step s o) as [[s' ev] res]. simpl. rewrite IH. reflexivity.
+Qed.
+
+Lemma final_app ops1 : forall s ops2, final s (ops1 ++ ops2) = final (final s ops1) ops2.
+Proof. induction ops1 as [|o l IH]; intros s ops2; simpl; [reflexivity|]. apply IH. Qed.
+
+Definition exec_events (rs : list record) : list event :=
+  flat_map rec_events (filter (fun r => is_exec (rec_op r)) rs).
+
+Lemma no_exec_run ops : forall s, forallb (fun o => negb (is_exec o)) ops = true ->
+  exec_events (run s ops) = [] /\ once (final s ops) = once s.
+Proof.
+  induction ops as [|o l IH]; intros s H; simpl in *; [auto|].
+  apply andb_true_iff in H as [H1 H2].
+  destruct (step s o) as [[s' ev] res] eqn:E. unfold exec_events. simpl.
+  change (rec_op (o, ev, res)) with o.
+  apply negb_true_iff in H1. rewrite H1. destruct (IH s' H2) as [I1 I2].
+  split; [exact I1|]. rewrite I2, (step_once _ _ _ _ _ E), H1. apply orb_false_r.
+Qed.
+
+Lemma once_run ops : forall s, once s = true -> exec_events (run s ops) = [] /\ once (final s ops) = true.
+Proof.
+  induction ops as [|o l IH]; intros s H; simpl; [auto|].
+  destruct (step s o) as [[s' ev] res] eqn:E. unfold exec_events. simpl.
+  assert (O' : once s' = true) by (rewrite (step_once _ _ _ _ _ E), H; reflexivity).
+  destruct (IH s' O') as [I1 I2]. split; [|exact I2].
+  change (rec_op (o, ev, res)) with o.
+  destruct (is_exec o) eqn:X; [|exact I1].
+  destruct o; try discriminate. simpl in E. rewrite H in E. injection E as <- <- <-.
+  unfold rec_events at 1. simpl. exact I1.
+Qed.
+
+(* however many times executeShutdownCallbacks runs (any number of signals, anything in between),
+   the shutdown event and the shutdown + final-shutdown callbacks of the instances live at the
+   first one run exactly once *)
+Lemma shutdown_once_any_signals pre post :
+  forallb (fun o => negb (is_exec o)) pre = true ->
+  exec_events (run init (pre ++ OExecShutdown :: post)) =
+  EHook HShutdown 0 :: all_shutdown (insts (final init pre)).
+Proof.
+  intro H. rewrite run_app. unfold exec_events. rewrite filter_app, flat_map_app.
+  destruct (no_exec_run pre init H) as [N1 N2]. unfold exec_events in N1. rewrite N1. simpl.
+  simpl in N2. rewrite N2. unfold rec_events at 1. simpl.
+  match goal with |- context [run ?s post] => destruct (once_run post s eq_refl) as [O1 _] end.
+  unfold exec_events, rec_events in O1. unfold rec_events. rewrite O1. rewrite app_nil_r. reflexivity.
+Qed.
